@@ -81,6 +81,8 @@ class Z3Domain:
         if self.linearize and _val(a) is None and _val(b) is None:
             sa, sb = z3.simplify(a), z3.simplify(b)
             if _val(sa) is None and _val(sb) is None:
+                if sa.get_id() > sb.get_id():      # commutative normal form
+                    sa, sb = sb, sa
                 r = self.uf("MUL", (sa, sb))
                 self.mul_apps.append((sa, sb, r))
                 return r
